@@ -21,6 +21,14 @@ fn emit_condition(
             out.push(json!({"CNT?": context.qualified_choice_labels[name]}));
         }
         Condition::Expression(Expression::Variable(name))
+            if !context.top_flow_names.contains(name)
+                && !scope.child_flow_names.contains(name)
+                && !scope.temp_param_names.contains(name)
+                && scope.resolve_label_in_knot(name, context).is_some() =>
+        {
+            out.push(json!({"CNT?": scope.resolve_label_in_knot(name, context).unwrap()}));
+        }
+        Condition::Expression(Expression::Variable(name))
             if context.top_flow_names.contains(name) || scope.child_flow_names.contains(name) =>
         {
             out.push(json!({"CNT?": scope.resolve_divert_target(name, context)}));
